@@ -91,6 +91,7 @@ func c18(r *core.Run) {
 	r.Rule("C18/R2", "send gate: the notification write is behind blockPredicate(recipient, signer)=false; To = the value tested; From ⊵ signer only; Time ⊵ Ctx.BlockTime only; Contents ⊵ msg.Contents only")
 	r.Rule("C18/R3", "delete is recipient-only: the inbox (leading) component of the deleted key ⊵ signer only")
 	r.Rule("C18/R4", "the only handler that writes Notification-typed records is notifications.MsgCreateNotification")
+	r.Rule("C18/R6", "success implies the effect: a successful create has written the notification, a successful delete has deleted it")
 	r.Rule("C18/R5", "the inbox listing iterates the prefix '<address>/' and notification keys start with '<to>/'")
 	prefixTyping(r, "C18/R1")
 	hs, err := p.Handlers()
@@ -138,6 +139,12 @@ func c18(r *core.Run) {
 			r.Check(tm.HasCtx("BlockTime") && len(tm.DataAtoms()) == 1, "C18/R2", h.Key()+":time-is-blocktime", p.InstrPos(call), "Time ⊵ Ctx.BlockTime only", "stored time does not come from the block time only: "+tm.String())
 			r.Check(p.OnlyMsgField(p.ProvAt(rec, ".Contents", call), h, "Contents"), "C18/R2", h.Key()+":contents", p.InstrPos(call), "Contents ⊵ msg.Contents only", "stored contents differ from the message contents: "+p.ProvAt(rec, ".Contents", call).String())
 		}
+	}
+	if h != nil {
+		successImplies(r, "C18/R6", h, "write of the notification", storeWrites("notifications", "Notification/"))
+	}
+	if hd := core.HandlerByKey(hs, "notifications.MsgDeleteNotification"); hd != nil {
+		successImplies(r, "C18/R6", hd, "delete of the notification", storeWrites("notifications", "Notification/"))
 	}
 	// R3
 	if hd := core.HandlerByKey(hs, "notifications.MsgDeleteNotification"); hd == nil {
